@@ -4,6 +4,8 @@ spec/C10/Mboot.tla       MC: reference device || faulty device-to-host link || t
                          PartialIsFlagged, Documented, MirrorNoFault, liveness Terminates; the design as it was on the tree must be refuted
 spec/C10/MbootGen.tla    GEN: the reachable (shape, data length in packets, fault kind, position in the device-to-host frame stream) classes
 spec/C10/MbootTrace.tla  R-spec in trace form (device + link + API contract) for histories of calls on one McuBoot object, serial and USB-HID
+spec/C10/MbootHistGen.tla GEN: histories of calls ([shape, data length in packets]) around a device-to-host data phase of ZERO packets
+                         (MbootTrace clause Drained: a call leaves nothing of its exchange in the link; on serial every device frame is acknowledged)
 spec/C10/SdpTrace.tla    R-spec in trace form for SDP (i.MX ROM) over serial and HID
 
 The real McuBoot / SDP objects talk to an executable twin of the reference device (a DeviceBase stub below the framing layer); the twin records
@@ -42,6 +44,7 @@ PROPS = {1: [0x4B030100], 2: [0x1F], 3: [0], 4: [0x80000], 5: [0x1000], 7: [0xFF
          14: [0x20000000], 15: [0x10000], 16: [0x12345678], 17: [0], 18: [1, 2, 3, 4], 24: [0x54010000],
          0x30: [0x1234], 0x31: [7]}          # device-specific properties whose numbers no host-side enumeration knows
 UNKNOWN_PROPERTY = 10300
+KEYSTORE = bytes((i * 3 + 1) & 0xFF for i in range(100))        # the key store of the twin (a call of kp_read_key_store names the size of the store: 0 = empty)
 
 
 class Core:
@@ -56,7 +59,7 @@ class Core:
         self.dataout = None  # (kind, address, expect, tag)
         self.got = bytearray()
         self.raw = bytearray()
-        self.keystore = bytes((i * 3 + 1) & 0xFF for i in range(100))
+        self.keystore = KEYSTORE
         self.resets = 0
 
     def shape(self, tag, flags, params):
@@ -129,6 +132,7 @@ class Core:
             out.append(("resp", 0xA0, 0, [tag], False))
             if ln == 0:
                 out.append(("resp", 0xA0, 0, [tag], True))
+                self.dataout = None          # the exchange is over: data packets that follow belong to no command
         return shape, ln, out
 
     def effect(self, tag, params):
@@ -208,6 +212,10 @@ class Twin:
         if not self.tx:
             raise self.Timeout()
         return self.tx.pop(0)
+
+    def left(self):
+        """What the device emitted and the host has not read: bytes (serial) / reports (HID)."""
+        return len(self.tx)
 
     # ---- emissions with faults
     def emit(self, kind, **info):
@@ -453,8 +461,8 @@ def payload(n, salt):
     return bytes((i * 5 + 1 + salt) & 0xFF for i in range(n))
 
 
-def make_args(op, length, salt, r):
-    """Concrete arguments of one call (API order) from the value classes."""
+def make_args(op, length, salt, r, len2=None):
+    """Concrete arguments of one call (API order) from the value classes.  len2: the second length of an operation of two exchanges (blob size)."""
     vals = []
     for k in OPS[op][2]:
         if k == "addr":
@@ -480,7 +488,8 @@ def make_args(op, length, salt, r):
         elif k == "small4":
             vals.append(r.choice([0, 1, 2, 3]))
         elif k == "count":
-            vals.append(r.choice([72, 72, 88, 104, 1, 64, 65, 200]))
+            c_ = r.choice([72, 72, 88, 104, 1, 64, 65, 200])
+            vals.append(c_ if len2 is None else len2)
         elif k == "key8":
             vals.append(bytes(r.randrange(256) for _ in range(8)))
         elif k == "data48":
@@ -492,7 +501,7 @@ def make_args(op, length, salt, r):
     return vals
 
 
-def do_call(mb, twin, op, length, salt, r=None):
+def do_call(mb, twin, op, length, salt, r=None, len2=None):
     """Perform one API call; returns (call event, result event)."""
     from spsdk.exceptions import SPSDKError
 
@@ -500,7 +509,9 @@ def do_call(mb, twin, op, length, salt, r=None):
     if op == "flash_read_resource":
         length = (length + 3) // 4 * 4  # the API documents 4-byte alignment
     core = twin.core
-    A = make_args(op, length, salt, r or rng(PROP, "args", op, length, salt))
+    if op == "kp_read_key_store":
+        core.keystore = KEYSTORE[:length]           # state of the device: the size of its key store (0: the device announces a data phase of zero bytes)
+    A = make_args(op, length, salt, r or rng(PROP, "args", op, length, salt), len2)
     ints = [x for x in A if isinstance(x, int)]
     blobs = [x for x in A if isinstance(x, bytes)]
     data = blobs[0] if blobs else b""
@@ -510,7 +521,7 @@ def do_call(mb, twin, op, length, salt, r=None):
     if op == "kp_read_key_store":
         call["len"] = len(core.keystore)
     res = {"ev": "result", "kind": "ret", "val": "fail", "status": 0, "reads": 0, "documented": True, "dataExact": False, "dataLen": 0,
-           "devGotExact": False, "devBytes": 0, "valuesExact": False, "exc": "none"}
+           "devGotExact": False, "devBytes": 0, "valuesExact": False, "exc": "none", "left": 0}
     reads0 = twin.reads
     want = b""
     try:
@@ -579,6 +590,7 @@ def do_call(mb, twin, op, length, salt, r=None):
     st = mb.status_code
     res["status"] = int(st) if isinstance(st, int) and 0 <= st < 2**31 else 999999
     res["reads"] = twin.reads - reads0
+    res["left"] = twin.left()
     return call, res
 
 
@@ -672,7 +684,7 @@ def do_cli(twin, proto, cmd, length, salt, r, workdir):
             "tag": (0x0F if "verify" in kwl else tag), "len": length if shape in ("in", "out") else 0, "mps": twin.mps, "args": [], "dl": W(len(data)), "db": [],
             "via": "cli", "cli": cli}
     res = {"ev": "result", "kind": "ret", "val": "fail", "status": 0, "reads": 0, "documented": True, "dataExact": False, "dataLen": 0,
-           "devGotExact": False, "devBytes": 0, "valuesExact": False, "exc": "none"}
+           "devGotExact": False, "devBytes": 0, "valuesExact": False, "exc": "none", "left": 0}
     reads0 = twin.reads
     cls = MbootUARTInterface if twin.transport == "serial" else MbootUSBInterface
     cls.scan_single = classmethod(lambda c, **kw_: proto)
@@ -697,6 +709,7 @@ def do_cli(twin, proto, cmd, length, salt, r, workdir):
             res.update(devGotExact=bytes(core.mem[vals[0]:vals[0] + length]) == data and bytes(core.got) == data, devBytes=len(core.got))
     res["status"] = 0 if ok else 1
     res["reads"] = twin.reads - reads0
+    res["left"] = twin.left()
     res["argv"] = " ".join(argv)
     return call, res
 
@@ -738,8 +751,10 @@ def run_history(job):
     if preset:
         mb.max_packet_size = mps
     evs = []
-    for i, (op, length) in enumerate(calls):
+    for i, c_ in enumerate(calls):
+        op, length, len2 = c_[0], c_[1], (c_[2] if len(c_) > 2 else None)
         last = i == len(calls) - 1
+        twin.core.raw = bytearray()          # load-image data are judged per call
         if last:
             # faults are positioned relative to the device-to-host stream of the LAST call
             if fault:
@@ -748,7 +763,7 @@ def run_history(job):
                 twin.dev_error = (twin.ncmd + dev_error[0], dev_error[1]) + tuple(dev_error[2:])
         twin.trace = []
         twin.expect_cmd_data = False
-        call, res = do_call(mb, twin, op, length, i, rng(PROP, "args", jid, i))
+        call, res = do_call(mb, twin, op, length, i, rng(PROP, "args", jid, i), len2)
         evs.append(call)
         evs.extend(twin.trace)
         evs.append(res)
@@ -765,7 +780,7 @@ def norm(e):
          "documented": bool(e.get("documented", True)), "dataExact": bool(e.get("dataExact", False)), "dataLen": int(e.get("dataLen", 0)),
          "devGotExact": bool(e.get("devGotExact", False)), "devBytes": int(e.get("devBytes", 0)), "valuesExact": bool(e.get("valuesExact", False)),
          "exc": e.get("exc", "none"), "args": e.get("args", []), "dl": e.get("dl", [0, 0]), "db": e.get("db", []), "flags": int(e.get("flags", 0)),
-         "rsv": int(e.get("rsv", 0)), "params": e.get("params", []), "via": e.get("via", "api"), "cli": e.get("cli", NOCLI)}
+         "rsv": int(e.get("rsv", 0)), "params": e.get("params", []), "via": e.get("via", "api"), "cli": e.get("cli", NOCLI), "left": int(e.get("left", 0))}
     return d
 
 
@@ -779,6 +794,10 @@ def key_of(t, matched):
             out = f"undocumented-exception:{e['exc']}"
         elif e["kind"] == "unbounded":
             out = "unbounded"
+        elif e["left"] > 0 and set(faults) <= {"nofault", "err", "notready"}:
+            # the call returned while frames of its exchange were still unread: named after the call that left them (not the last one of the history)
+            own = [x for x in t["ev"][:matched] if x["ev"] == "call"][-1:]
+            return f"C10/{t['transport']}/{(own or [last])[0]['shape']}:{(own or [last])[0]['op']}/{'+'.join(faults)}/stream-not-consumed"
         elif e["kind"] == "ret" and e["val"] in ("ok", "data", "values") and e["status"] == 0:
             out = "false-success"
         elif faults == ["nofault"]:
@@ -840,7 +859,7 @@ def run(tier):
                 jid += 1
                 jobs.append((f"nf-{jid}", transport, mps, [("load_image", ln)], None, None, True))
                 jid += 1
-                jobs.append((f"nf-{jid}", transport, mps, [("kp_read_key_store", 0)], None, None, True))
+                jobs.append((f"nf-{jid}", transport, mps, [("kp_read_key_store", len(KEYSTORE))], None, None, True))
             # multi-call histories
             for _ in range(12 if tier == "quick" else 3000):
                 k = r.randrange(2, 5)
@@ -887,7 +906,7 @@ def run(tier):
             jid += 1
             jobs.append((f"nf-{jid}", transport, mps, [("generate_key_blob", 16), ("read_memory", mps + 1), ("generate_key_blob", 32)], None, None, True))
             jid += 1
-            for op_, ln_ in (("read_memory", 3 * mps + 5), ("read_memory", mps), ("flash_read_resource", 2 * mps), ("fuse_read", 2 * mps + 1), ("kp_read_key_store", 0)):
+            for op_, ln_ in (("read_memory", 3 * mps + 5), ("read_memory", mps), ("flash_read_resource", 2 * mps), ("fuse_read", 2 * mps + 1), ("kp_read_key_store", len(KEYSTORE))):
                 for after in (0, 1, 2):
                     jid += 1
                     jobs.append((f"f-{jid}", transport, mps, [(op_, ln_)], None, (1, r.choice([10002, 10200, 10203, 101]), "abort", after), True))
@@ -914,6 +933,16 @@ def run(tier):
         jid += 1
         op2 = r.choice(["read_memory", "write_memory"])
         jobs.append((f"h-{jid}", r.choice(["serial", "hid"]), mps, [("get_property", 0), (op2, mps + 3)], (r.randrange(0, 4), r.choice(["drop", "trunc", "flip"]), (r.randrange(8), r.randrange(8))), None, r.random() < 0.5))
+
+    # ---- histories around a device-to-host data phase of ZERO bytes (MbootHistGen.tla enumerates the classes)
+    hg = tlc.run("C10", "MbootHistGen", "MbootHistGen.cfg" if tier == "quick" else "MbootHistGen_thorough.cfg", workers=1, deadlock=False, heap="2g")
+    v.add_mc(hg)
+    hclasses = sorted({tuple((c["shape"], c["n"]) for c in x["calls"]) for x in hg.json_prints()}, key=lambda h_: (len(h_), h_))
+    if len(hclasses) < 100 or not any(len(h_) > 1 and h_[0] == ("in", 0) for h_ in hclasses):
+        raise Machinery(f"history GEN produced only {len(hclasses)} classes\n{hg.out[-1500:]}")
+    zjobs = zero_histories(hclasses, tier, mps_menu, ops_by_shape)
+    jobs += zjobs
+    v.extra["zero_length_data_in_histories"] = {"classes": len(hclasses), "histories": len(zjobs)}
 
     # ---- tool layer: blhost command lines (MbootCli.tla says what each one means), fault-free, both transports
     cjobs = []
@@ -957,10 +986,27 @@ def run(tier):
         bad["id"] = "canary-bad"
         bad["ev"][-1]["dataLen"] -= 32  # a short read reported with status 0
         bad["ev"][-1]["dataExact"] = False
-        crej, _ = tlc.tv("C10", "MbootTrace", [strip(good), strip(bad)])
-        if set(crej) != {"canary-bad"}:
-            raise Machinery(f"canary failed: rejected {sorted(crej)}")
-        v.extra["canary"] = "fault-free read accepted; the same trace with a short read and status 0 rejected"
+        batch, expect = [strip(good), strip(bad)], {"canary-bad"}
+        # Drained: an ACCEPTED serial history that starts with a zero-length read; the same history with the final response of that read left in the link
+        # (18 bytes unread) and, separately, with the host's acknowledgement of that response missing must both be rejected
+        good2 = next((t for t in traces if t["id"] not in rej and t["id"].startswith("z-") and t["transport"] == "serial" and t["job"][5] is None
+                      and sum(1 for e in t["ev"] if e["ev"] == "call") >= 2 and t["ev"][0]["shape"] == "in" and t["ev"][0]["len"] == 0), None)
+        if good2 is not None:
+            first_res = next(i for i, e in enumerate(good2["ev"]) if e["ev"] == "result")
+            left = json.loads(json.dumps(good2))
+            left["id"] = "canary-left"
+            left["ev"][first_res]["left"] = 18
+            unacked = json.loads(json.dumps(good2))
+            unacked["id"] = "canary-unacked"
+            last_ack = max(i for i, e in enumerate(unacked["ev"][:first_res]) if e["ev"] == "h2d" and e["kind"] == "ack")
+            del unacked["ev"][last_ack]
+            batch += [strip(good2), strip(left), strip(unacked)]
+            expect |= {"canary-left", "canary-unacked"}
+        crej, _ = tlc.tv("C10", "MbootTrace", batch)
+        if set(crej) != expect:
+            raise Machinery(f"canary failed: rejected {sorted(crej)}, expected {sorted(expect)}")
+        v.extra["canary"] = "fault-free read accepted; the same trace with a short read and status 0 rejected" + (
+            "; history after a zero-length read accepted, rejected with the final response left in the link / not acknowledged" if good2 is not None else "")
     else:
         v.extra["canary"] = "skipped: no fault-free read of the real code was accepted by the spec (reported as violations)"
     v.traces(len(traces))
@@ -981,7 +1027,9 @@ def run(tier):
     v.cov["operations"] = sorted(OPS)
     v.cov["rule"] = ("mboot: command layer = every driven operation with arguments from boundary value classes, the packets that reached the device compared with "
                      "MbootCmds.tla (tag, flags, parameter words, order); fault-free histories = every operation family x length class {0,1,mps-1,mps,mps+1,3mps+5} x packet sizes x both transports x packet size "
-                     "cached or not + random multi-call histories; faulty = every fault class TLC reaches in Mboot.tla (shape, packets, kind, frame position) x "
+                     "cached or not + random multi-call histories + every history class of MbootHistGen.tla (<= 3 calls in quick, <= 4 in thorough, containing a device-to-host data phase of "
+                     "zero bytes: read_memory / flash_read_resource / fuse_read of 0 bytes, kp_read_key_store of an empty store, generate_key_blob with blob size 0; histories of <= 2 calls "
+                     "completely, also with an error status for the last call), after every call: nothing left in the link, every serial frame acknowledged; faulty = every fault class TLC reaches in Mboot.tla (shape, packets, kind, frame position) x "
                      "concrete operations x byte/bit positions; SDP: operations x response scripts incl. short reads; distinct by job description")
     v.assumptions += ["USB-HID has no integrity check: payload corruption on HID is not a listed fault (only report id / length / missing / truncated report, error status)",
                       "faults are finite; the device stub honours the DeviceBase contract (>= 1 byte or a time-out exception)",
@@ -991,8 +1039,66 @@ def run(tier):
                       "Reset: a device that falls silent after the command (response lost or cut, device gone before its ACK) counts as restarted - SPSDK's documented "
                       "tolerance; an explicit NAK does not",
                       "a fault inside the read-only packet-size query in front of a data phase need not end the call (the host may go on with the default size)",
-                      "memory ids 1..255 (mapped external memories) travel as 0 in the region commands, as blhost documents"]
+                      "memory ids 1..255 (mapped external memories) travel as 0 in the region commands, as blhost documents",
+                      "Drained (nothing of a call's exchange left unread, every serial frame acknowledged) is asserted for calls whose frames the link left alone "
+                      "(device error statuses and not-ready bytes included); what a call may leave behind after a link fault is not settled and not asserted",
+                      "a device with an empty key store answers kp_read_key_store with length 0 and success (response, no data packet, final response) - the "
+                      "exchange the protocol defines for every announced length"]
     return v.finish()
+
+
+# operations whose device-to-host data phase has ZERO bytes: the caller asks for 0 bytes, or the device has nothing to hand out (empty key store)
+ZERO_IN = [("read_memory", 0), ("flash_read_resource", 0), ("fuse_read", 0), ("kp_read_key_store", 0)]
+
+
+def zero_histories(hclasses, tier, mps_menu, ops_by_shape):
+    """Expand the history classes of MbootHistGen.tla ([shape, n] per call) to jobs for run_history.
+    Short histories (<= 2 calls) are expanded completely: every zero-length operation x both transports x every packet size, fault-free and - where the
+    last call sends a command - with the device answering that command with an error status (the call must report exactly that status).
+    Longer ones: one draw per class and transport (quick: every second class - which half depends on the seed -, transports alternate; thorough:
+    transports alternate over the histories of four calls).
+    In the quick tier the packet sizes alternate over the histories of two calls instead of being multiplied in."""
+    rz = rng(PROP, "zero-histories")
+    in_ops = ops_by_shape["in"] + ["kp_read_key_store"]
+
+    def concrete(c, mps, zero=None):
+        shape, n = c
+        if shape in ("cmd", "value"):
+            return (rz.choice(ops_by_shape[shape]), 0)
+        if shape == "in":
+            if n == 0:
+                return zero or rz.choice(ZERO_IN)
+            op = rz.choice(in_ops)
+            return (op, len(KEYSTORE)) if op == "kp_read_key_store" else (op, rz.choice([n * mps, (n - 1) * mps + 1, n * mps - rz.randrange(1, mps)]))
+        if shape == "out":
+            return (rz.choice(ops_by_shape["out"]), 0 if n == 0 else rz.choice([n * mps, (n - 1) * mps + 1, n * mps - rz.randrange(1, mps)]))
+        if shape == "outin":
+            return ("generate_key_blob", rz.choice([16, 32, mps + 1]), 0 if n == 0 else rz.choice([72, 1, 64, 200]))
+        if shape == "raw":
+            return ("load_image", rz.choice([1, mps, 2 * mps + 3]))
+        raise Machinery(f"unknown call class {c}")
+
+    from lib.common import seed
+
+    jobs = []
+    for k, h in enumerate(hclasses):
+        if len(h) <= 2:
+            zpos = [i for i, c in enumerate(h) if c == ("in", 0)]
+            for z_, zero in enumerate(ZERO_IN if zpos else [None]):
+                for t_, transport in enumerate(("serial", "hid")):
+                    for mps in (mps_menu if tier != "quick" or len(h) == 1 else [mps_menu[(k + z_ + t_) % len(mps_menu)]]):
+                        calls = [concrete(c, mps, zero if i == zpos[0] else None) if zpos else concrete(c, mps) for i, c in enumerate(h)]
+                        for preset in ((False, True) if len(h) == 1 else (rz.random() < 0.5,)):
+                            jobs.append((f"z-{len(jobs)}", transport, mps, calls, None, None, preset))
+                        if len(h) == 2 and h[-1][0] != "raw":
+                            calls = [concrete(c, mps, zero if i == zpos[0] else None) if zpos else concrete(c, mps) for i, c in enumerate(h)]
+                            where = ("final",) if h[-1][0] in ("in", "out") and h[-1][1] > 0 and rz.random() < 0.5 else ()
+                            jobs.append((f"z-{len(jobs)}", transport, mps, calls, None, (1, rz.choice([10101, 10200, 1, 105])) + where, True))
+        elif tier != "quick" or (k + seed()) % 2 == 0:
+            for transport in (("serial", "hid")[k % 2:k % 2 + 1] if tier == "quick" or len(h) >= 4 else ("serial", "hid")):
+                mps = mps_menu[(k // 2) % len(mps_menu)]
+                jobs.append((f"z-{len(jobs)}", transport, mps, [concrete(c, mps) for c in h], None, None, rz.random() < 0.5))
+    return jobs
 
 
 def hid_index(shape, n, at):
